@@ -165,6 +165,13 @@ class Registry:
                 return cd.name, cd.fields[attr]
         return None, None
 
+    def source_class(self, cls):
+        """name of the class in the repository source that a declared (possibly instantiated) class stands for"""
+        for cd in self._chain(cls):
+            if cd.file:
+                return getattr(cd, "source", None) or cd.name
+        return cls
+
     def class_file(self, cls):
         for cd in self._chain(cls):
             if cd.file:
